@@ -145,6 +145,8 @@ type c07FSEvent struct {
 	Digest string `json:"digest,omitempty"`
 	Serial string `json:"serial,omitempty"`
 	Staple string `json:"staple,omitempty"`
+	Chain  string `json:"chain,omitempty"`
+	Blocks int    `json:"blocks,omitempty"`
 	Res    int    `json:"res,omitempty"`
 }
 
@@ -191,8 +193,8 @@ func c07FSChildMain(specPath string) {
 	}
 	w.sink = func(kind, key string) { put(c07FSEvent{K: kind, Key: key}) }
 	w.onGenKey = func(id int, digest string) { put(c07FSEvent{K: "KeyInfo", ID: id, Digest: digest}) }
-	w.onIssued = func(ser int, serial, staple string) {
-		put(c07FSEvent{K: "IssueInfo", ID: ser, Serial: serial, Staple: staple})
+	w.onIssued = func(ser int, serial, staple, chain string, blocks int) {
+		put(c07FSEvent{K: "IssueInfo", ID: ser, Serial: serial, Staple: staple, Chain: chain, Blocks: blocks})
 	}
 	w.orc = &sp.Hop.Orc
 	cnt := 0
@@ -278,6 +280,7 @@ func (fw *c07FSWorld) toObs(o *c06Obs, evs []c07FSEvent) {
 		case "IssueInfo":
 			w.serIDs[ev.Serial] = ev.ID
 			w.stapleSer[ev.Staple] = ev.ID
+			w.chainDigest[ev.ID], w.chainBlocks[ev.ID] = ev.Chain, ev.Blocks
 			if ev.ID >= w.nextSer {
 				w.nextSer = ev.ID + 1
 			}
